@@ -98,7 +98,8 @@ Qed.
 Ltac split_g h g todo :=
   destruct (N.eq_dec h g) as [e|ne];
   [ subst g;
-    assert (Hhh : (h = h) <-> True) by (split; auto); rewrite ?Hhh; clear Hhh
+    assert (Hhh : (h = h) <-> True) by (split; auto); rewrite ?Hhh; clear Hhh;
+    destruct (in_dec N.eq_dec h todo)
   | assert (Hhg : (h = g \/ In g todo) <-> In g todo)
       by (split; [intros [?|?]; [congruence|assumption] | auto]);
     assert (Hhg2 : (h = g) <-> False) by (split; [exact ne | intros []]);
@@ -120,17 +121,17 @@ Proof.
   - destruct (uses_query E h) eqn:Hu; cbn [negb] in H.
     2:{ destruct (IH _ _ _ _ _ _ Hnd H) as [N1 [S1 [S2 S3]]]. split; [exact N1|].
         split; [|split]; intro g; [rewrite S1 | rewrite S2 | rewrite S3];
-          (split_g h g todo; intuition congruence). }
+          (split_g h g todo; solve [intuition (try congruence)]). }
     destruct (qualifies E h c) eqn:Hq.
     + destruct (gmem h cur) eqn:Hm.
       * apply gmem_In in Hm. destruct (IH _ _ _ _ _ _ Hnd H) as [N1 [S1 [S2 S3]]]. split; [exact N1|].
         split; [|split]; intro g; [rewrite S1 | rewrite S2 | rewrite S3];
-          (split_g h g todo; intuition congruence).
+          (split_g h g todo; solve [intuition (try congruence)]).
       * apply gmem_false in Hm.
         assert (Hnd1 : NoDup (cur ++ [h])) by (apply nodup_snoc; assumption).
         destruct (IH _ _ _ _ _ _ Hnd1 H) as [N1 [S1 [S2 S3]]]. split; [exact N1|].
         split; [|split]; intro g; [rewrite S1 | rewrite S2 | rewrite S3]; rewrite ?in_app_iff; cbn [In];
-          (split_g h g todo; intuition congruence).
+          (split_g h g todo; solve [intuition (try congruence)]).
     + destruct (gmem h cur) eqn:Hm.
       * apply gmem_In in Hm.
         assert (Hnd1 : NoDup (gremove h cur)) by (apply gremove_nodup; exact Hnd).
@@ -138,11 +139,126 @@ Proof.
         destruct (IH _ _ _ _ _ _ Hnd1 H) as [N1 [S1 [S2 S3]]]. split; [exact N1|].
         split; [|split]; intro g; [rewrite S1 | rewrite S2 | rewrite S3]; rewrite ?in_app_iff; cbn [In];
           (split_g h g todo;
-           [ intuition congruence
-           | rewrite ?(gremove_other h g cur) by (intro; apply ne; congruence); intuition congruence]).
+           rewrite ?(gremove_other h g cur) by (intro; apply ne; congruence); solve [intuition (try congruence)]).
       * apply gmem_false in Hm. destruct (IH _ _ _ _ _ _ Hnd H) as [N1 [S1 [S2 S3]]]. split; [exact N1|].
         split; [|split]; intro g; [rewrite S1 | rewrite S2 | rewrite S3];
-          (split_g h g todo; intuition congruence).
+          (split_g h g todo; solve [intuition (try congruence)]).
 Qed.
 
 End Loop.
+
+(* ---- ReevaluateQueryBasedGroups as a whole -------------------------------------------------------------- *)
+Section Top.
+Variable E : menv.
+
+Lemma filter_all : forall (A : Type) (p : A -> bool) l, (forall x, In x l -> p x = true) -> filter p l = l.
+Proof.
+  induction l as [|x l IH]; cbn; intro H; [reflexivity|].
+  rewrite (H x (or_introl eq_refl)). f_equal. apply IH. intros y Hy. apply H. right. exact Hy.
+Qed.
+
+Lemma sum_groups_event : forall added removed gs,
+  group_events_sum (groups_event added removed) gs
+  = fold_left remove_group removed (fold_left add_group added gs).
+Proof. intros [|a added] [|r removed] gs; reflexivity. Qed.
+
+(* One call of ReevaluateQueryBasedGroups, from any stored membership without duplicates:
+   - afterwards membership of every query based group the assets know equals "active and the query matches";
+   - [added] / [removed] are exactly the groups whose membership was wrong (the symmetric difference);
+   - no other membership changes; and the reported lists replay to the new membership. *)
+Lemma reevaluate_query_groups_spec : forall c cur added removed,
+  NoDup (c_groups c) ->
+  reevaluate_query_groups E c = (cur, added, removed) ->
+  NoDup cur
+  /\ Consistent E (with_groups c cur)
+  /\ (forall g, In g added <-> (In g (all_groups E) /\ uses_query E g = true)
+                              /\ qualifies E g c = true /\ ~ In g (c_groups c))
+  /\ (forall g, In g removed <-> (In g (all_groups E) /\ uses_query E g = true)
+                                /\ qualifies E g c = false /\ In g (c_groups c))
+  /\ (forall g, ~ (In g (all_groups E) /\ uses_query E g = true) -> (In g cur <-> In g (c_groups c)))
+  /\ cur = fold_left remove_group removed (fold_left add_group added (c_groups c)).
+Proof.
+  intros c cur added removed Hnd H. unfold reevaluate_query_groups in H.
+  destruct (reeval_loop_spec E c _ _ _ _ _ _ _ Hnd H) as [N1 [S1 [S2 S3]]].
+  destruct (reeval_loop_replay E c _ (c_groups c) _ _ _ _ _ _
+              (fun g (F : In g []) => match F with end) (fun g (F : In g []) => match F with end) eq_refl H)
+    as [R1 _].
+  split; [exact N1|]. split; [|split; [|split; [|split]]].
+  - intros g Hall Hu. cbn [c_groups with_groups]. rewrite qualifies_groups, S1.
+    destruct (qualifies E g c); intuition congruence.
+  - intro g. rewrite S2. cbn [In]. intuition.
+  - intro g. rewrite S3. cbn [In]. intuition.
+  - intros g Hn. rewrite S1. intuition.
+  - exact R1.
+Qed.
+
+(* session.ensureQueryBasedGroups *)
+Lemma ensure_query_groups_spec : forall c c' evs,
+  NoDup (c_groups c) ->
+  ensure_query_groups E c = (c', evs) ->
+  c' = with_groups c (c_groups c')
+  /\ NoDup (c_groups c')
+  /\ Consistent E c'
+  /\ group_events_sum evs (c_groups c) = c_groups c'
+  /\ (forall g, ~ (In g (all_groups E) /\ uses_query E g = true) -> (In g (c_groups c') <-> In g (c_groups c)))
+  /\ (evs = [] /\ c_groups c' = c_groups c \/ exists a r, evs = [EGroupsChanged a r]).
+Proof.
+  intros c c' evs Hnd H. unfold ensure_query_groups in H.
+  destruct (reevaluate_query_groups E c) as [[cur added] removed] eqn:HR.
+  destruct (reevaluate_query_groups_spec c cur added removed Hnd HR) as [N1 [C1 [_ [_ [St R1]]]]].
+  inversion H; subst c' evs. cbn [c_groups with_groups].
+  split; [destruct c; reflexivity|]. split; [exact N1|]. split; [exact C1|].
+  split; [rewrite sum_groups_event; symmetry; exact R1|]. split; [exact St|].
+  destruct added as [|a added]; [destruct removed as [|r removed]|]; cbn [groups_event].
+  - left. split; [reflexivity | exact R1].
+  - right. eexists; eexists; reflexivity.
+  - right. eexists; eexists; reflexivity.
+Qed.
+
+(* modifiers.ReevaluateGroups: additionally a non-active contact leaves all its groups *)
+Lemma reevaluate_groups_spec : forall c c' evs,
+  wf_contact E c ->
+  reevaluate_groups E c = (c', evs) ->
+  c' = with_groups c (c_groups c')
+  /\ wf_contact E c'
+  /\ Consistent E c'
+  /\ (is_active c = false -> c_groups c' = [])
+  /\ group_events_sum evs (c_groups c) = c_groups c'
+  /\ (is_active c = true ->
+      forall g, ~ (In g (all_groups E) /\ uses_query E g = true) -> (In g (c_groups c') <-> In g (c_groups c)))
+  /\ (evs = [] /\ c_groups c' = c_groups c \/ exists a r, evs = [EGroupsChanged a r]).
+Proof.
+  intros c c' evs [Hnd Hincl] H. unfold reevaluate_groups in H.
+  destruct (reevaluate_query_groups E c) as [[cur added] removed] eqn:HR.
+  destruct (reevaluate_query_groups_spec c cur added removed Hnd HR) as [N1 [C1 [SA [SR [St R1]]]]].
+  assert (Hcur_incl : incl cur (all_groups E)).
+  { intros g Hg. destruct (in_dec N.eq_dec g (all_groups E)) as [Hi|Hni]; [exact Hi|].
+    apply Hincl. apply St; [intros [Hi _]; exact (Hni Hi) | exact Hg]. }
+  destruct (is_active c) eqn:Hact; cbn [negb] in H; inversion H; subst c' evs; cbn [c_groups with_groups].
+  - split; [destruct c; reflexivity|]. split; [split; assumption|]. split; [exact C1|].
+    split; [discriminate|]. split; [rewrite sum_groups_event; symmetry; exact R1|]. split; [intros _; exact St|].
+    destruct added as [|a added]; [destruct removed as [|r removed]|]; cbn [groups_event].
+    + left. split; [reflexivity | exact R1].
+    + right. eexists; eexists; reflexivity.
+    + right. eexists; eexists; reflexivity.
+  - (* every group left after the loop is static *)
+    assert (Hstatic : forall g, In g cur -> negb (uses_query E g) = true).
+    { intros g Hg. destruct (uses_query E g) eqn:Hu; [|reflexivity]. exfalso.
+      assert (Hall : In g (all_groups E)) by (apply Hcur_incl; exact Hg).
+      specialize (C1 g Hall Hu). cbn [c_groups with_groups] in C1. rewrite qualifies_groups in C1.
+      apply C1 in Hg. rewrite qualifies_inactive in Hg by exact Hact. discriminate. }
+    split; [destruct c; reflexivity|]. split; [split; [constructor | intros g []]|].
+    split; [intros g Hall Hu; cbn [c_groups with_groups]; rewrite qualifies_groups, qualifies_inactive by exact Hact;
+            split; [intros [] | discriminate]|].
+    split; [reflexivity|]. split.
+    + rewrite sum_groups_event, fold_left_app, <- R1, (filter_all _ _ cur Hstatic). apply fold_remove_self.
+    + split; [discriminate|].
+      destruct added as [|a added]; [destruct (removed ++ filter (fun g => negb (uses_query E g)) cur) as [|r rs] eqn:Hrm|];
+        cbn [groups_event].
+      * left. split; [reflexivity|]. apply app_eq_nil in Hrm. destruct Hrm as [Hr0 Hf0]. subst removed.
+        rewrite (filter_all _ _ cur Hstatic) in Hf0. subst cur. cbn in R1. exact R1.
+      * right. eexists; eexists; reflexivity.
+      * right. eexists; eexists; reflexivity.
+Qed.
+
+End Top.
